@@ -26,8 +26,12 @@ const (
 )
 
 func sortCompat(a, b Sort) bool {
-	return a == b || ((a == SInt || a == SRef) && (b == SInt || b == SRef))
+	return a == b || ((a == SInt || a == SRef) && (b == SInt || b == SRef)) || (isAnySort(a) && isAnySort(b))
 }
+
+// isAnySort: Any and its per-interface aliases (define-sort AnyI_<iface> () Any),
+// which exist only to keep arrays of different interface element types apart.
+func isAnySort(s Sort) bool { return s == SAny || strings.HasPrefix(string(s), "AnyI_") }
 
 func ArrSort(idx, elem Sort) Sort { return Sort("(Array " + string(idx) + " " + string(elem) + ")") }
 
